@@ -78,4 +78,10 @@ class Cancel(_Task):
 
 
 P = ("C07-",)
-CONTRACTS = [variant(AsyncScope, "C07", P), variant(TaskGroupExit, "C07", P), CheckCancellation(), Cancel()]
+# "the tasks it spawned in those scopes are cancelled too" holds because a task spawned inside a scope is a member of that
+# scope's task group - also when the group is already aborting (it then refuses the task) - never a detached task: the
+# C06-P1 clauses of TaskGroupContext.run / ctx.spawn are obligations of C07 as well
+from .C06 import Run as _Run, Spawn as _Spawn      # noqa: E402
+
+CONTRACTS = [variant(AsyncScope, "C07", P), variant(TaskGroupExit, "C07", P), CheckCancellation(), Cancel(),
+             variant(_Run, "C07", ("C06-P1",)), variant(_Spawn, "C07", ("C06-P1",))]
